@@ -139,6 +139,9 @@ class Facts:
                 st = norm_ty(it["self_ty"])
                 tr = norm_ty(it["trait"]) if it["trait"] else None
                 for m in it["items"]:
+                    if m["k"] == "const" and not tr:
+                        # associated constant: `Type::NAME` (also reachable as `Self::NAME` inside the impl)
+                        self.consts["::".join(module + (st.split("<")[0], m["name"]))] = m
                     if m["k"] != "fn":
                         continue
                     key = ("<%s as %s>::%s" % (st, tr, m["name"])) if tr else ("%s::%s" % (st, m["name"]))
